@@ -17,6 +17,7 @@ RULE = ("random environments of 0..20 variables (names over [A-Za-z0-9_] incl. l
 RULE += (" " + 'Also: in 20 % of the runs an unrelated variable whose value is not valid UTF-8 (a run that dies while reading set variables is a violation); values of 70,000 and 100,000 characters.')
 RULE += (" " + '60 % of the unset names are near misses of a variable that is set, mostly one that carries a secret (other case, one character more, less or different).')
 RULE += (" " + 'The unset name is read in one of 12 contexts (file level, function, module body / out expression / parameter default, function in module, module in function, format template, map / reduce callback, select arm, copy field); 40 % of the cases also run under `ucg test` strict and --no-strict.')
+RULE += (" " + 'Every fourth case runs with exactly 0, 1 or 2 variables (not even PATH or HOME): `out json env`, set reads, the unset read in both modes.')
 
 NAME_POOL = ["A", "B", "HOME", "PATH_X", "x", "lower_case", "MiXed", "_LEAD", "__", "A1", "A_B_C", "Z9_", "LONG_" + "N" * 40, "env", "self", "let",
              "NULL", "true", "mod", "item", "in", "SECRET_TOKEN", "DB_PASSWORD", "a"]
